@@ -176,3 +176,45 @@ def math_condition(cond_str, idx):
                                 if x.get("k") == "lit" and x.get("t") == "str":
                                     names.add(x["v"])
     return names
+
+
+def inline_block_wrappers(idx):
+    """`let close = ss.append_nested_block(t, input); ROUTINE(input, ss, ..); ss.append_nested_block_close(close, input)` is the unit every
+    dispatch arm for a nested block consists of.  A private free function that wraps exactly that unit (no token dispatch of its own, no
+    value returned, at most ten statements) is not a new routine: its calls are replaced, in the syntax IR, by its body with the
+    parameters substituted, so that every rule reads an arm the same way whether the triple is written out or named."""
+    import copy
+    helpers = {}
+    for g in idx.fns:
+        if not g.body or g.base or g.ret is not None or _has_dispatch(g) or len(g.body.get("stmts", [])) > 10:
+            continue
+        names = [sir.call_name(n) for n in sir.walk(g.body) if n.get("k") in ("call", "mcall")]
+        if "append_nested_block" not in names or g.name in names:
+            continue
+        pn = g.param_names()
+        if any(p is None for p in pn):
+            continue
+        helpers[g.name] = (g, pn)
+    if not helpers:
+        return 0
+    count = 0
+    for f in idx.fns:
+        if not f.body or f.name in helpers:
+            continue
+        for n in list(sir.walk(f.body)):
+            if n.get("k") != "call" or n["f"].get("k") != "path" or n["f"]["segs"][-1] not in helpers:
+                continue
+            g, pn = helpers[n["f"]["segs"][-1]]
+            if len(n["args"]) != len(pn):
+                continue
+            subst = dict(zip(pn, n["args"]))
+            body = copy.deepcopy(g.body)
+            for x in list(sir.walk(body)):
+                if x.get("k") == "path" and len(x["segs"]) == 1 and x["segs"][0] in subst:
+                    rep = copy.deepcopy(subst[x["segs"][0]])
+                    x.clear()
+                    x.update(rep)
+            n.clear()
+            n.update(body)
+            count += 1
+    return count
